@@ -12,7 +12,7 @@
 -/
 import FcModel.Lexsort
 import FcModel.Mesh
-namespace Fc
+namespace Fc.C02
 
 /-- mesh tolerances as they reach the sorting code: Python floats, in units -/
 structure MeshTol where
@@ -189,4 +189,4 @@ def sortMesh (as : List Int → List Nat) (h : List Nat → Int) (t : MeshTol) (
     Option MeshFields :=
   (sortPoints as t (stripOrphans as f)).map (sortCells as h)
 
-end Fc
+end Fc.C02
